@@ -479,3 +479,61 @@ Proof.
 Qed.
 
 End Float.
+
+(* ---------------------------------------------------------------------------------------- *)
+(* statements used by props/C09.v *)
+
+Lemma encode_sets_spec : forall b, b < 256 ->
+  (str_set CInfo b = true <-> (b < 32 \/ b = 127 \/ 128 <= b \/ b = 37 \/ b = 44 \/ b = 59 \/ b = 61)) /\
+  (str_set CFormat b = true <-> (b < 32 \/ b = 127 \/ 128 <= b \/ b = 37 \/ b = 44 \/ b = 58)).
+Proof. intros b H. unfold str_set, is_control. split; split; intro; lia. Qed.
+
+Lemma string_roundtrip : forall prs c lazy s, bytes_ok s ->
+  parse_value prs lazy (NCount 1) TString (write_string c s) = Some (VString s) /\
+  write_string c s <> dot /\
+  ~ In 44 (write_string c s) /\ ~ In 9 (write_string c s) /\ ~ In 10 (write_string c s) /\
+  match c with
+  | CInfo => ~ In 59 (write_string c s) /\ ~ In 61 (write_string c s)
+  | CFormat => ~ In 58 (write_string c s)
+  end.
+Proof.
+  intros prs c lazy s H. split; [unfold parse_value; cbn; now rewrite write_string_dec|].
+  split; [apply write_string_not_dot|]. split; [now apply write_string_no_comma|].
+  split; [now apply write_string_no_tab|]. split; [now apply write_string_no_lf|].
+  destruct c; [split; [now apply write_string_info_no_semi|now apply write_string_info_no_eq]
+              |now apply write_string_format_no_colon].
+Qed.
+
+Lemma val_ok_eager_lazy : forall FOK c v, val_ok FOK c false v -> val_ok FOK c true v.
+Proof.
+  intros FOK c v H. destruct v; cbn [val_ok] in *; try exact H.
+  - destruct H as [H1 _]. split; [exact H1|now left].
+  - destruct H as [Hs Hc]. split; [exact Hs|]. intros ch Hin. destruct (Hc ch Hin) as [H1 _].
+    split; [exact H1|now left].
+Qed.
+
+Lemma value_lazy_eq_eager :
+  forall fmt_float prs_float (FOK : N -> Prop),
+  (forall b, FOK b -> prs_float (fmt_float b) = Some b) ->
+  (forall b x, FOK b -> In x (fmt_float b) -> x <> 44 /\ x <> 9 /\ x <> 10 /\ x <> 59 /\ x <> 58) ->
+  (forall b, FOK b -> fmt_float b <> dot) ->
+  (forall b, FOK b -> fmt_float b <> []) ->
+  forall c v44 num ty v t,
+  val_ok FOK c false v -> typed num ty v -> v <> VFlag ->
+  write_value fmt_float c v44 v = Some t ->
+  parse_value prs_float true num ty t = parse_value prs_float false num ty t.
+Proof.
+  intros fmt prs FOK H1 H2 H3 H4 c v44 num ty v t Hok Hty Hnf Hw.
+  rewrite (value_roundtrip fmt prs FOK H1 H2 H3 H4 c false v44 num ty v t Hok Hty Hnf Hw).
+  exact (value_roundtrip fmt prs FOK H1 H2 H3 H4 c true v44 num ty v t (val_ok_eager_lazy FOK c v Hok) Hty Hnf Hw).
+Qed.
+
+Lemma char_reserved_refuted : exists prs c ch,
+  ch < 128 /\
+  parse_value prs false (NCount 1) TCharacter (write_char c ch) = None /\
+  parse_value prs true (NCount 1) TCharacter (write_char c ch) = Some (VCharacter ch).
+Proof. exists (fun _ => None), CInfo, 59. vm_compute. repeat split. Qed.
+
+Lemma empty_sample_refuted : exists fmt prs ds,
+  write_sample fmt false [] = Some [] /\ parse_sample_eager prs ds [] = None.
+Proof. exists (fun _ => []), (fun _ => None), [FGt]. vm_compute. split; reflexivity. Qed.
